@@ -2,7 +2,7 @@
   Equality of the generated definitions with the hand-written model: entry module.
 
   `Rigo/Generated/Funcs.lean` is regenerated from the Go source of rigo-go by /verif/extract
-  (translate.go, whitelist expect/funcs.json) on every check run; the modules imported here prove,
+  (translate*.go, whitelist expect/funcs.json) on every check run; the modules imported here prove,
   for every whitelisted function, that the generated definition equals the corresponding function
   of the model (`Rigo.GenEq.<name>_eq`).  A semantic change of such a Go function changes the
   generated definition and breaks the proof.
@@ -17,6 +17,15 @@
   | GenFuncsSlash     | doSlashAll |
   | GenFuncsValUpd    | validatorUpdates |
   | GenFuncsSigner    | SFilePVLastSignState.CheckHRS |
+  | round 2           | |
+  | GenFuncsStake2    | NewStakeWithPower, NewStakeWithAmount, NewDelegatee, Delegatee.{addStake,AddStake,DelStakeByIdx,SumPower,SumPowerOf,DoSlash,ProcessNotSignedBlock,GetNotSignedBlockCount} |
+  | GenFuncsTx        | commonValidation0 (gas price, minimum fee and signature check as parameters), commonValidation1, postRunTrx, Trx.GetType, Account.AddNonce, GasToFee, FeeToGas, NewAccount |
+  | GenFuncsMerge     | MergeGovParams |
+  | GenFuncsLimiter2  | StakeLimiter.{checkUpdatablePowerLimit,checkLimit,CheckLimit,EvaluateLimit} = `Limiter.check` for every sort that satisfies Go's `sort.Sort` contract |
+  | GenFuncsGovBase   | `propOf`: the Go proposal (map of voters, options) of a model proposal; map lemmas |
+  | GenFuncsGovMisc   | NewVoteOptions, NewGovProposal, IsVoter (x2), GetVoter, SumVotingPowers, powerOrderVoteOptions.Less, isMajor, updateMajorOption, UpdateMajorOption |
+  | GenFuncsGov       | voteOption.{DoVote,CancelVote,Votes}, GovProposal.{cancelVote,doVote,DoVote} |
+  | GenFuncsGovPunish | GovProposal.DoPunish |
 -/
 import RigoProofs.GenFuncsSimple
 import RigoProofs.GenFuncsLoops
@@ -24,3 +33,10 @@ import RigoProofs.GenFuncsLimiter
 import RigoProofs.GenFuncsSlash
 import RigoProofs.GenFuncsValUpd
 import RigoProofs.GenFuncsSigner
+import RigoProofs.GenFuncsStake2
+import RigoProofs.GenFuncsTx
+import RigoProofs.GenFuncsMerge
+import RigoProofs.GenFuncsLimiter2
+import RigoProofs.GenFuncsGovMisc
+import RigoProofs.GenFuncsGov
+import RigoProofs.GenFuncsGovPunish
